@@ -576,3 +576,64 @@ Print Assumptions C02_end_to_end_painted_named.
 Theorem C02_painted_rank_needs_fresh_names : ~ Proofs.EndToEndC02PaintedRank.painted_rank_statement false.
 Proof. exact Proofs.EndToEndC02PaintedRank.painted_rank_needs_fresh_names. Qed.
 Print Assumptions C02_painted_rank_needs_fresh_names.
+
+(* ========================================================================
+   TAGGED MAPS: the FIRST half of the pipeline (remap_to_input: lookups,
+   labelling, overhang resolution, cuts, QC, renaming of haplotigs / unlocs,
+   left-overs) completes on every TILING map whose tags are CONSISTENT per
+   Pretext scaffold -- at most one chromosome-name tag, at most one haplotype
+   tag, Primary only together with a haplotype tag, Unloc only in a painted
+   scaffold; any of Painted / Target / Haplotig / Contaminant / FalseDuplicate /
+   Singleton / Cut besides.  A decidable condition on the tags alone
+   (Proofs.CompletionTagged.scaffold_tags_consistentb), each clause shown
+   necessary by a computed run that ends in TaggingError / ValueError.  (The
+   second half -- pairing chromosomes of several haplotypes -- legitimately
+   refuses badly paired maps; for Painted maps see C02_painted_maps_complete.) *)
+From Tola Require Proofs.CompletionTagged.
+Theorem C02_completion_tagged : forall g prefix n d input pretext,
+  0 < d -> d <= n ->
+  Forall Proofs.Completion.input_ok input -> NoDup (map fst input) ->
+  NoDup (map key_of (Model.RemapSpec.in_frags input)) ->
+  Forall (fun f => f_tags f = []) (Model.RemapSpec.in_frags input) ->
+  Forall (fun p => exists b t, snd p = RF b :: t) pretext ->
+  Forall (fun b => (f_strand b = 1 \/ f_strand b = -1) /\ In (f_name b) (map fst input))
+         (Proofs.CoreKept.baits_of pretext) ->
+  Forall (fun p => Proofs.CompletionTagged.scaffold_tags_consistent (map f_tags (frags_of (snd p)))) pretext ->
+  Forall (Proofs.Completion.scaffold_tiled n d (Proofs.CoreKept.baits_of pretext)) input ->
+  exists rs, remap_to_input repaired g prefix (n, d) input pretext = Ok rs.
+Proof. exact Proofs.CompletionTagged.completion_of_tagged_tiling_maps. Qed.
+Print Assumptions C02_completion_tagged.
+
+Theorem C02_tagged_needs_one_name_tag :
+  ~ Proofs.CompletionTagged.tagged_statement
+      (fun ls => Proofs.CompletionTagged.one_hap_tag (concat ls) /\ Proofs.CompletionTagged.primary_has_hap (concat ls)
+                 /\ Proofs.CompletionTagged.unloc_is_painted ls).
+Proof. exact Proofs.CompletionTagged.completion_tagged_needs_one_name_tag. Qed.
+Theorem C02_tagged_needs_one_hap_tag :
+  ~ Proofs.CompletionTagged.tagged_statement
+      (fun ls => Proofs.CompletionTagged.one_name_tag (concat ls) /\ Proofs.CompletionTagged.primary_has_hap (concat ls)
+                 /\ Proofs.CompletionTagged.unloc_is_painted ls).
+Proof. exact Proofs.CompletionTagged.completion_tagged_needs_one_hap_tag. Qed.
+Theorem C02_tagged_needs_primary_has_hap :
+  ~ Proofs.CompletionTagged.tagged_statement
+      (fun ls => Proofs.CompletionTagged.one_name_tag (concat ls) /\ Proofs.CompletionTagged.one_hap_tag (concat ls)
+                 /\ Proofs.CompletionTagged.unloc_is_painted ls).
+Proof. exact Proofs.CompletionTagged.completion_tagged_needs_primary_has_hap. Qed.
+Theorem C02_tagged_needs_unloc_is_painted :
+  ~ Proofs.CompletionTagged.tagged_statement
+      (fun ls => Proofs.CompletionTagged.one_name_tag (concat ls) /\ Proofs.CompletionTagged.one_hap_tag (concat ls)
+                 /\ Proofs.CompletionTagged.primary_has_hap (concat ls)).
+Proof. exact Proofs.CompletionTagged.completion_tagged_needs_unloc_is_painted. Qed.
+Print Assumptions C02_tagged_needs_one_name_tag.
+Print Assumptions C02_tagged_needs_one_hap_tag.
+Print Assumptions C02_tagged_needs_primary_has_hap.
+Print Assumptions C02_tagged_needs_unloc_is_painted.
+
+(* non-vacuity: a two-haplotype map -- Painted+HAP1+X, an Unloc piece, a reversed
+   Haplotig piece, Painted+HAP2, a Contaminant piece, Painted+HAP1, one untagged
+   scaffold -- meets every hypothesis; run through the theorem *)
+Theorem C02_completion_tagged_instance :
+  exists rs, remap_to_input repaired Proofs.CompletionTagged.TwoHaps.g10 (s "SUPER_") (7, 2)
+               Proofs.CompletionTagged.TwoHaps.input Proofs.CompletionTagged.TwoHaps.pretext = Ok rs.
+Proof. exact Proofs.CompletionTagged.two_haplotype_map_completes. Qed.
+Print Assumptions C02_completion_tagged_instance.
